@@ -192,7 +192,7 @@ def _buf_worker(texts):
 
 
 def buffered_part(ctx):
-    maxlen = 6 if ctx.quick else 7
+    maxlen = 6          # 6^6 texts; (7 would be 3e5 texts x 64 chunkings)
     wd = ctx.sub("buf_emit")
     r = tlc.run("StreamBuf.tla", 'CONSTANTS Mode = "emit"\nMaxLen = %d\nK = %d\nSPECIFICATION Spec\nINVARIANT EmitText\n' % (maxlen, BUF_K),
                 wd, spec_dirs=[SPEC_DIR], workers=1, timeout=3000)
@@ -248,10 +248,10 @@ def run(ctx):
             f.write(src)
         cfg_emit = ('CONSTANTS MaxLen = %d\nMode = "emit"\nCfgFrom = %d\nCfgTo = %d\n'
                     'SPECIFICATION Spec\nINVARIANT EmitLine\n' % (maxlen, i, i))
-        return tlc.run("MC_Stream.tla", cfg_emit, wd, workers=1, timeout=3000)
+        return tlc.run("MC_Stream.tla", cfg_emit, wd, workers=1, timeout=3000, java_opts="-Xss256m -Xmx3500m")   # (many JVMs side by side)
 
     from concurrent.futures import ThreadPoolExecutor
-    with ThreadPoolExecutor(16) as ex:
+    with ThreadPoolExecutor(16 if ctx.quick else 10) as ex:
         for r in ex.map(emit, range(1, ncfg + 1)):
             emit_states += r.distinct
             for p in r.printed:
